@@ -30,7 +30,7 @@ ASSUMPTIONS = [
     "manifests are read with the independent reader (C10 checks that both readers agree)",
     "files are only edited by the harness between runs, never during a run",
 ]
-BUDGET = {"quick": (260, 4), "thorough": (16000, 16)}
+BUDGET = {"quick": (260, 4), "thorough": (64000, 16)}
 REQUIRED = ["gens>=3", "alter", "restore", "nested", "nested_depth>=3", "sf", "new_format_added", "failed_recorded"]
 CLI = refhash.CLI_FORMATS
 
